@@ -231,9 +231,18 @@ func sameViol(a, b []Violation) bool {
 	return true
 }
 
+// libraryStatePanic is raised by a harness whose own set-up, built from public constructors
+// that worked at process start, starts to panic later: package-level state of the library was
+// corrupted by an operation explored earlier.  It is a property violation, not a harness error.
+type libraryStatePanic struct{ what string }
+
 func runUnit(u *U, fn func(u *U)) (herr string) {
 	defer func() {
 		if r := recover(); r != nil {
+			if lp, ok := r.(libraryStatePanic); ok {
+				u.Violation("library-state-corrupted", "set-up", lp.what)
+				return
+			}
 			herr = fmt.Sprintf("harness panic in unit %d: %v\n%s", u.Idx, r, debug.Stack())
 		}
 	}()
@@ -414,6 +423,14 @@ func outDir() string {
 		return d
 	}
 	return verifDir
+}
+
+// replayDir is where replay files go (they must outlive scratch evidence directories).
+func replayDir() string {
+	if d := os.Getenv("VERIF_REPLAY_OUT"); d != "" {
+		return d
+	}
+	return outDir()
 }
 
 // repoDir is the go-cty checkout the harness was built against.
@@ -723,13 +740,13 @@ func runParent(ck *Check, tier string, seed int64, emit bool) int {
 	}
 	if len(fresh) > 0 {
 		exit = 1
-		os.MkdirAll(filepath.Join(outDir(), "replays", ck.ID), 0o755)
+		os.MkdirAll(filepath.Join(replayDir(), "replays", ck.ID), 0o755)
 		for i, v := range fresh {
 			if i >= 25 {
 				fmt.Printf("... and %d more distinct violation classes\n", len(fresh)-i)
 				break
 			}
-			path := filepath.Join(outDir(), "replays", ck.ID, fmt.Sprintf("%s-%s-u%d-%d.json", ck.ID, tier, v.Unit, i))
+			path := filepath.Join(replayDir(), "replays", ck.ID, fmt.Sprintf("%s-%s-u%d-%d.json", ck.ID, tier, v.Unit, i))
 			rb, _ := json.MarshalIndent(map[string]interface{}{
 				"property": ck.Property, "check": ck.ID, "tier": tier, "seed": seed, "unit": v.Unit,
 				"site": v.Site, "shape": v.Shape, "detail": v.Detail,
